@@ -1,5 +1,7 @@
-import Driver.Util
-/-! `drv_http`: not built yet -/
+import Driver.HttpDrv
+open Driver
+
 def main : IO UInt32 := do
-  IO.eprintln "drv_http: engine not implemented"
-  return 2
+  let lines ← readLines (← IO.getStdin) #[]
+  HttpDrv.main lines
+  return 0
